@@ -118,6 +118,10 @@ def main(tier: str) -> int:
                 runs.append((cn, cfg))
     for j, (fmin, fmax) in enumerate(((0.5, 0.4), (0.2, 0.1), (0.1, 0.9))):
         runs.append(("jDE", dict(pop_size=8, iters=12, objective="sphere", seed=chk.seed * 100 + 70 + j, keep_history=True, F_min=fmin, F_max=fmax, t_F=0.6, t_CR=0.6)))
+    # a population larger than 100 (history length = pop_size whatever the size), short run
+    runs.append(("SHADE", dict(pop_size=103, iters=3, objective="sphere", seed=chk.seed * 100 + 88, keep_history=True)))
+    # jDE long enough for a new best to appear in another slot than the last after the parameters have diverged, elitism on
+    runs.append(("jDE", dict(pop_size=12, iters=30, objective="sphere", minimization=True, elitism=True, seed=chk.seed * 100 + 89, keep_history=True, t_F=0.3, t_CR=0.3)))
     # objectives in very small units (improvements far below numpy.isclose's absolute tolerance)
     for j, mn in enumerate((True, False)):
         runs.append(("SHADE", dict(pop_size=8, iters=14, objective="tiny", minimization=mn, seed=chk.seed * 100 + 80 + j, keep_history=True)))
@@ -150,6 +154,15 @@ def main(tier: str) -> int:
                 changed = (a["_F"] != b["_F"]) | (a["_CR"] != b["_CR"])
                 if np.any(changed & ~mask):
                     chk.fail("a jDE individual's F/CR changed although its trial was rejected", dd, {"optimizer": cn, "clause": "acceptance"})
+                # ... and nothing else touches them between two generations (record keeping, the elitism step)
+                if gi + 1 < len(log):
+                    nb = log[gi + 1]["before"]
+                    moved = (nb["_F"] != a["_F"]) | (nb["_CR"] != a["_CR"])
+                    if np.any(moved):
+                        i_ = int(np.argmax(moved))
+                        chk.fail("a jDE individual's F/CR changed although its trial was rejected",
+                                 {**dd, "individual": i_, "when": "between the end of this generation and the start of the next one",
+                                  "CR": [float(a["_CR"][i_]), float(nb["_CR"][i_])], "F": [float(a["_F"][i_]), float(nb["_F"][i_])]}, {"optimizer": cn, "clause": "acceptance_between"})
                 continue
             hkeys = ("_H_F", "_H_CR") if cn == "SHADE" else ("_H_MR", "_H_CR")
             pF = a["_F"] if cn == "SHADE" else a["_MR"]
